@@ -400,6 +400,8 @@ def history_job(job):
 
 
 def run(ctx):
+    from vlib import concur
+    concur.register(ctx, "C02")
     ctx.shard(history_job, [(t, k) for t in ("udp", "tcp") for k in (False, True)],
               "conforming answers after an earlier request that left a fragment of every length behind (same protocol object)")
     es_vendor_responses(ctx.acc)
@@ -418,6 +420,10 @@ def run(ctx):
 
 
 def replay(ctx, case):
+    if isinstance(case, dict) and case.get("overlap") and "callers" in case:
+        from vlib import concur
+        concur.replay(ctx.acc, case, concur.INVARIANTS["C02"], "C02")
+        return
     if case.get("history"):
         ctx.acc.merge(history_job((case["transport"], case["keep"])))
         return
